@@ -157,6 +157,18 @@ class VLoop(base_events.BaseEventLoop):
         self.run_iteration()
         return True
 
+    def run_once(self) -> int:
+        """One iteration the way asyncio's _run_once does it: timers that are due by now join the handles that are already
+        ready (behind them), and exactly that batch runs - used after the clock was moved without the loop running (an
+        application that blocked the loop thread for a while)."""
+        sched = self._scheduled
+        while sched and (sched[0]._cancelled or _us(sched[0]._when) <= self.now_us):
+            h = heapq.heappop(sched)
+            h._scheduled = False
+            if not h._cancelled:
+                self._ready.append(h)
+        return self.run_iteration()
+
     def next_timer_us(self) -> Optional[int]:
         sched = self._scheduled
         while sched and sched[0]._cancelled:
